@@ -6,6 +6,19 @@ from vlib import Case
 # VERIF_C01_SCALE < 1 shrinks the batch (used for the mutation-sanity runs only)
 SCALE = float(os.environ.get("VERIF_C01_SCALE", "1"))
 
+
+def _cursor_repaired():
+    """finding F60: the model has both cursor orders (sy_rot); the one matching the checked-out repo is selected"""
+    try:
+        import vlib
+        src = open(os.path.join(vlib.REPO, "qrecovery", "src", "streams", "raw.rs")).read()
+    except Exception:
+        return False
+    return "range(..=sid)" not in src
+
+
+ROT = _cursor_repaired()
+
 PROP_FILE = "Properties/C01.v"
 RULE = ("cases = op lists over WRITE/FLUSH/SHUTDOWN/READ/RESET/STOP (real Writer/Reader polled once), EMIT side cap flow (one "
         "try_load_data_into_once), DELIVER/ACK/LOSE i (any pool frame, any order, repeated) on TWO real DataStreams endpoints with 1-4 "
@@ -23,12 +36,11 @@ MODELLED = ("qrecovery/src/send/{sender,outgoing,writer}.rs, recv/{recver,incomi
 ASSUMPTIONS = ["written bytes are position-derived per flow (content(p + 7919*(key+1)))",
                "the application polls each Writer / Reader with one waker per flow end",
                "liveness (c01_progress) assumes one fair round of the virtual network and written <= stream window; real timers belong to C13",
-               "safety theorems quantify over the runs in which feedback for an EMPTY range (FIN-only frame) reaches a SendBuf whose last "
-               "run is acknowledged (or, for a loss, lost): outside that class SendBuf leaves the state space verified by C09 (finding F29)"]
+               "progress theorems (c01_progress, c01_progress_flow) assume: connection open, no reset / stop-sending on the flows concerned, written length within the stream window, packet capacity in [26, 2^62), dirs in {0,1}; a server flow of a stream the server has not learnt of is not covered (it has no Writer)"]
 
 MANIFEST = {
-    "text": "Machine-checked Coq theorems (Properties/C01.v) over an executable model of the whole stream data path (Writer -> Sender over the C09 SendBuf model -> adversarial frame pool -> Recver over the C08 RecvBuf model -> Reader, two endpoints, round-robin cursor): for every operation list (any capacities, any loss / reorder / duplication / delayed, repeated or contradictory acks, resets and stop-sending) the bytes handed to the reader are a prefix of the bytes written, byte for byte, every STREAM frame carries exactly the written slice it names, FIN only at the written length after shutdown, end-of-stream is reported only after the last byte and only if shutdown was called, and a reset error is never invented; from a reachable state one fair round (lose all, emit until drained, deliver all, ack all) makes everything readable and completes flush / shutdown. The model is tied to the Rust by running the extracted model and two real DataStreams endpoints on the same schedules every run; the property is also evaluated directly on the implementation's observations by a Python oracle.",
-    "note": "Trusted: Coq kernel, extraction, OCaml driver, Rust harness (two real qrecovery::streams::DataStreams joined by a case-controlled channel), Python generators/oracle. Safety is a theorem for all op lists inside the class where empty-range (FIN-only) feedback does not push SendBuf outside the state space verified by C09 (finding F29; the complement is exercised by the correspondence run and the oracle only). Liveness is `partial`: fairness of the virtual network is the hypothesis of the good round, stream windows are assumed not to bind, real timers belong to C13.",
+    "text": "Machine-checked Coq theorems (Properties/C01.v) over an executable model of the whole stream data path (Writer -> Sender over the C09 SendBuf model -> adversarial frame pool -> Recver over the C08 RecvBuf model -> Reader, two endpoints, round-robin cursor): for every operation list (any capacities, any loss / reorder / duplication / delayed, repeated or contradictory acks, resets and stop-sending) the bytes handed to the reader are a prefix of the bytes written, byte for byte, every STREAM frame carries exactly the written slice it names, FIN only at the written length after shutdown, end-of-stream is reported only after the last byte and only if shutdown was called, and a reset error is never invented; every flow of every reachable state of the two-endpoint model is such a flow (c01_safety_system); from EVERY reachable state without reset one fair round (lose all, emit until drained, deliver all, ack all) makes everything readable, reports the end after the last byte when shutdown was called and completes flush / shutdown, per flow (c01_progress_flow) and for the two endpoints (c01_progress); whatever the cursor holds one try_load_data_into_once offers the packet to every stream of the output set. The model is tied to the Rust by running the extracted model and two real DataStreams endpoints on the same schedules every run; the property is also evaluated directly on the implementation's observations by a Python oracle.",
+    "note": "Trusted: Coq kernel, extraction, OCaml driver, Rust harness (two real qrecovery::streams::DataStreams joined by a case-controlled channel), Python generators/oracle. Safety is a theorem for every op list of one flow and of the two-endpoint system (no class restriction since F29 is fixed). Liveness is `partial` in the sense of the design: it is a theorem about the model (c01_progress: from every reachable open state without reset / stop and with written lengths within the windows, one good round of the two endpoints - lose all, emit on both sides until nothing, deliver all, ack all - completes every client flow, every flow of a stream the server knows and every finished flow; c01_progress_flow: the same for one flow against the adversarial channel; c01_done_reads: two reads then return exactly the written bytes and report the end after shutdown), whose hypothesis is the fairness of the virtual network (the round itself); real timers, loss detection and retransmission scheduling belong to C13, window updates to C11. Observation F60 (not a C01 violation for finite data, corpus case f60): when the cursor stream has used up its 4096 tokens try_load_data_into_once restarts the round at the SAME stream, so a stream with data is never preempted by its neighbours, contrary to the doc comment (c01_cursor_no_rotation); a two-range repair is prepared as one `fix:` commit and proved to rotate (c01_cursor_rotates); the model carries both orders (sy_rot) and the props module selects the stream (`stream_e2e` / `stream_e2e_rot`) that matches the checked-out raw.rs.",
     "technique": "Coq proof (per-flow invariant over operation lists, reusing the C08 / C09 theorems; bounded-fuel good round for liveness) + differential correspondence model/implementation + direct oracle",
 }
 
@@ -413,6 +425,9 @@ class Plan:
         cur = self.cursor[side]
         if cur is None:
             order = [(x, DEFAULT_TOKENS) for x in reversed(ks)]
+        elif cur[1] == 0 and ROT:
+            order = [(x, DEFAULT_TOKENS) for x in reversed([y for y in ks if y < cur[0]])] + \
+                    [(x, DEFAULT_TOKENS) for x in reversed([y for y in ks if y >= cur[0]])]
         elif cur[1] == 0:
             order = [(x, DEFAULT_TOKENS) for x in reversed([y for y in ks if y <= cur[0]])] + \
                     [(x, DEFAULT_TOKENS) for x in reversed([y for y in ks if y > cur[0]])]
@@ -748,7 +763,7 @@ def mutate(rng, case, j):
 
 
 STREAMS = [{
-    "name": "stream_e2e", "pkg": "hr", "bin": "impl_stream_e2e",
+    "name": "stream_e2e_rot" if ROT else "stream_e2e", "pkg": "hr", "bin": "impl_stream_e2e",
     "gen": gen, "oracle": oracle, "nontrivial": nontrivial, "hist": hist, "mutate": mutate,
     "profiles": ("debug",), "profiles_thorough": ("debug", "release"),
     "rule": RULE,
